@@ -5,6 +5,7 @@ from __future__ import annotations
 from mc.common import pmap
 from mc.fd import build, snap
 from mc.refconstraint import And, Atom, Child, Desc, Idx, Or, Quant, Slc, Sym, holds, merge_whole, text
+from mc.refconstraint import readings as all_readings
 from mc.refgrammar import TreeChecker, WordMatcher, snap_text, words
 
 GRAMMAR = '<start> ::= <a> <b>\n<a> ::= <d>+ <c>?\n<b> ::= <d> | <c> <d>\n<c> ::= "x"\n<d> ::= "1" | "2" | "a" | "12"\n'
@@ -35,13 +36,27 @@ def constraints() -> list:
     return out
 
 
-def work(idx):
-    f = constraints()[idx]
-    ctext = text(f)
-    spec = build(GRAMMAR, [ctext])
+def jobs() -> list:
+    """single constraints, and pairs/triples given as separate `where` clauses (all must hold)"""
+    cs = constraints()
+    out = [(i,) for i in range(len(cs))]
+    for i in range(8):
+        for j in range(8):
+            if i != j:
+                out.append((i, j))
+    out.append((0, 3, 7))
+    out.append((7, 3, 0))
+    return out
+
+
+def work(idxs):
+    cs = constraints()
+    fs = [cs[i] for i in idxs]
+    ctexts = [text(f) for f in fs]
+    ctext = " ;; ".join(ctexts)
+    spec = build(GRAMMAR, ctexts)
     plain = build(GRAMMAR)
-    whole = merge_whole(f)
-    readings = [f] + ([whole] if whole is not None and whole is not f else [])
+    readings_per = [all_readings(f) for f in fs]
     res = {"constraint": ctext, "words": 0, "trees": 0, "yielded": 0, "viol": []}
     for w in words(["1", "2", "a", "x"], 5):
         forest = list(plain.grammar.parse_forest(w))
@@ -63,7 +78,14 @@ def work(idx):
         res["yielded"] += len(got)
         for t in forest:
             s = snap(t)
-            verdicts = {holds(r, t) for r in readings}
+            # the tree must be yielded iff EVERY constraint holds; a constraint holds if some reading holds
+            each = [{holds(r, t) for r in rs} for rs in readings_per]
+            if all(v == {True} for v in each):
+                verdicts = {True}
+            elif any(v == {False} for v in each):
+                verdicts = {False}
+            else:
+                verdicts = {True, False}
             if s in got and verdicts == {False}:
                 res["viol"].append({"kind": "api_yields_tree_violating_constraint", "constraint": ctext, "word": w, "tree": repr(s)[:300],
                                     "sig": "api_yields_tree_violating_constraint"})
@@ -77,8 +99,9 @@ def work(idx):
 
 
 def run_api(ctx):
-    n = len(constraints())
-    results = pmap(work, list(range(n)), chunk=1)
+    js = jobs()
+    n = len(js)
+    results = pmap(work, js, chunk=1)
     words_n = trees = yielded = 0
     for r in results:
         words_n += r["words"]
